@@ -96,7 +96,7 @@ func (wr *Writer) colorJSON(data any, depth int) {
 			wr.colorJSON(g.Generic().Simplify(), depth)
 			return
 		}
-		if !wr.NoReflect {
+		if !wr.NoReflect || 0 < len(wr.CreateKey) {
 			if dec := alt.Decompose(data, &wr.Options); dec != nil {
 				wr.colorJSON(dec, depth)
 				return
